@@ -532,7 +532,7 @@ def cases(ctx):
         for t in list(toks) + extra:
             out.append(build("dx_classify", {"kind": kind, "name": name, "tok": t}))
     seen = set()
-    per = 9 if tier == "quick" else 260
+    per = 9 if tier == "quick" else 80
     for (kind, name), parser in sorted(parsers.items()):
         rng = common.sub_rng(seed, "C17x", kind, name)
         pos, opts = D.shape(parser)
@@ -574,7 +574,7 @@ def cases(ctx):
                     info["canonical"] = canon
                 out.append(build(suite, info))
                 n += 1
-                if kind == 0 and suite != "dx_inline" and (tier == "thorough" or rng.random() < 0.08):
+                if kind == 0 and suite != "dx_inline" and rng.random() < (0.3 if tier == "thorough" else 0.08):
                     out.append(build("dx_pbgen", dict(info, tool="pbgen")))
             if n >= per:
                 break
